@@ -98,6 +98,31 @@ int main() {
     else if (cmd == "SS" || cmd == "US") { std::string a; in >> a; FE e; e.i = hx(a); if (cmd == "SS") util::SetSign(e.f); else util::UnsetSign(e.f); o << std::hex << e.i; }
     else if (cmd == "P32") { std::string a, b, c; in >> a >> b >> c; o << std::hex << util::Pivot32::Calc(hx(a), hx(b), hx(c)); }
     else if (cmd == "RND") { std::string p, a; in >> p >> a; o << std::hex << (p == "P" ? util::Power2Mod::RoundBuckets(hx(a)) : util::DivMod::RoundBuckets(hx(a))); }
+    else if (cmd == "SZ") {
+      // ProbingHashTable::Size(entries, multiplier) and a table of exactly that size filled with `entries` entries
+      std::string p, a, b; in >> p >> a >> b; uint64_t entries = hx(a); FE e; e.i = hx(b);
+      uint64_t size = (p == "P") ? util::ProbingHashTable<Entry, util::IdentityHash, std::equal_to<uint64_t>, util::Power2Mod>::Size(entries, e.f)
+                                 : util::ProbingHashTable<Entry, util::IdentityHash>::Size(entries, e.f);
+      uint64_t buckets = size / sizeof(Entry);
+      o << std::hex << buckets << ' ';
+      if (buckets == 0) { o << "no-buckets"; }
+      else {
+        std::vector<Entry> mem(buckets); memset(&mem[0], 0, buckets * sizeof(Entry));
+        std::string verdict = "ok";
+        try {
+          if (p == "P") {
+            util::ProbingHashTable<Entry, util::IdentityHash, std::equal_to<uint64_t>, util::Power2Mod> t(&mem[0], size);
+            for (uint64_t k = 1; k <= entries; ++k) { Entry x; x.key = k * 0x9E3779B97F4A7C15ULL | 1; x.value = k; t.Insert(x); }
+            for (uint64_t k = 1; k <= entries; ++k) { const Entry *f; if (!t.Find(k * 0x9E3779B97F4A7C15ULL | 1, f) || f->value != k) verdict = "LOST"; }
+          } else {
+            util::ProbingHashTable<Entry, util::IdentityHash> t(&mem[0], size);
+            for (uint64_t k = 1; k <= entries; ++k) { Entry x; x.key = k * 0x9E3779B97F4A7C15ULL | 1; x.value = k; t.Insert(x); }
+            for (uint64_t k = 1; k <= entries; ++k) { const Entry *f; if (!t.Find(k * 0x9E3779B97F4A7C15ULL | 1, f) || f->value != k) verdict = "LOST"; }
+          }
+        } catch (const util::ProbingSizeException &ex) { verdict = "THROW"; }
+        o << verdict;
+      }
+    }
     else if (cmd == "PT") {
       std::string p, b; in >> p >> b; size_t buckets = hx(b);
       std::vector<Entry> mem(buckets); memset(&mem[0], 0, buckets * sizeof(Entry));
